@@ -69,7 +69,8 @@ Proof.
   2:{ destruct rest; reflexivity. }
   destruct (N.leb_spec (s + n) 65536); cbn [andb].
   2:{ rewrite andb_false_r. destruct rest; reflexivity. }
-  rewrite Hlim. unfold limited_count. cbn [snd].
+  rewrite Hlim. unfold limited_count. cbn [fst snd]. rewrite try_from_spec by assumption.
+  destruct (N.leb_spec 1 n); [|lia]. destruct (N.leb_spec (s + n) 65536); [|lia]. cbn [andb snd].
   destruct (N.ltb_spec limit n), (N.leb_spec n limit); try lia; cbn [andb]; destruct rest; reflexivity.
 Qed.
 
